@@ -40,8 +40,15 @@ def generate(seed, tier):
             ops.append({'op': 'save'})
         elif x < 0.8:
             ops.append({'op': 'load'})
-        elif x < 0.92:
+        elif x < 0.86:
             ops.append({'op': 'pay', 'key': rng.randrange(100), 'n': rng.randint(1, 3)})
+        elif x < 0.91:
+            # the wallet's keys spend: several inputs of one key, change back to an input key, one key paid twice
+            ops.append({'op': 'spend_own', 'mode': rng.randrange(3), 'outs': rng.randrange(4), 'n': rng.randint(1, 3),
+                        'a': rng.randrange(1000)})
+            ops.append({'op': 'balance'})
+        elif x < 0.95:
+            ops.append({'op': 'receive_script', 'note': rng.choice(['bob', 'for alice', 'x'])})
         else:
             ops.append({'op': 'balance'})
     ops.append({'op': 'save'})
@@ -257,14 +264,119 @@ def execute(script):
                 res.bump('loads')
             elif kind == 'pay':
                 kk = ks[op.get('key', 0) % nk]
+                sim.op_mine({'op': 'mine', 'tip': -1, 'txs': [], 'miner': 0, 'dt': 3, 'clock': 0})
+                # pay by mining to the wallet key (the same key is paid n times): LedgerSim pays pool keys, so build the blocks here
                 for _ in range(op.get('n', 1)):
-                    sim.op_mine({'op': 'mine', 'tip': -1, 'txs': [], 'miner': 0, 'dt': 3, 'clock': 0})
-                # pay by mining to the wallet key: LedgerSim pays pool keys, so build the block here
+                    head = sim.chain.blocks[sim.cs.current_chain_hash]
+                    view = W.view_at(sim.cs, head.id)
+                    blk = W.mine_honest(view, [], kk, head.ts + 5)
+                    sim.deliver(blk, blk.header.summary.timestamp, 'honest', {'kind': 'pay'})
+                    res.bump('payments')
+            elif kind == 'spend_own':
                 head = sim.chain.blocks[sim.cs.current_chain_hash]
+                mine_refs = sorted(r for r, (v, pub) in head.utxo.items() if pub in wallet.keypairs)
+                if not mine_refs:
+                    continue
+                by_key = {}
+                for r in mine_refs:
+                    by_key.setdefault(head.utxo[r][1], []).append(r)
+                order = sorted(by_key, key=lambda pk: (-len(by_key[pk]), pk))
+                mode = op.get('mode', 0) % 3
+                if mode == 0:
+                    refs = by_key[order[0]][:1 + op.get('n', 1)]          # several outputs of ONE key in one transaction
+                elif mode == 1:
+                    refs = mine_refs[:1 + op.get('n', 1)]                 # a mix of keys
+                else:
+                    refs = by_key[order[-1]][:1]
+                total = sum(head.utxo[r][0] for r in refs)
+                if total < 8:
+                    continue
+                in_key = W.key_by_pub(head.utxo[refs[0]][1])
+                wk = ks[op.get('a', 0) % nk]
+                wk2 = ks[(op.get('a', 0) + 1) % nk]
+                foreign = W.key(op.get('a', 0) % 12)
+                pat = op.get('outs', 0) % 4
+                if pat == 0:
+                    outs = [(total, foreign)]
+                elif pat == 1:
+                    outs = [(total // 2, foreign), (total - total // 2, in_key)]       # change back to an input key
+                elif pat == 2:
+                    outs = [(total // 4, wk), (total // 4, wk), (total - 2 * (total // 4), foreign)]   # one wallet key paid twice
+                else:
+                    outs = [(total // 3, wk), (total - total // 3, wk2)]
+                signers = [W.key_by_pub(head.utxo[r][1]) for r in refs]
+                tx = W.make_tx(refs, outs, signers)
                 view = W.view_at(sim.cs, head.id)
-                blk = W.mine_honest(view, [], kk, head.ts + 5)
-                sim.deliver(blk, blk.header.summary.timestamp, 'honest', {'kind': 'pay'})
-                res.bump('payments')
+                blk = W.mine_honest(view, [tx], W.key(1), head.ts + 5)
+                sim.deliver(blk, blk.header.summary.timestamp, 'honest', {'kind': 'spend_own'})
+                res.bump('probe:wallet_keys_spend')
+                if len(refs) > 1 and len({head.utxo[r][1] for r in refs}) == 1:
+                    res.bump('probe:several_inputs_of_one_wallet_key')
+                res.distinct.add('spend_own:%d:%d:%d' % (mode, pat, len(refs)))
+            elif kind == 'receive_script':
+                # skepticoin-receive as its own process: load wallet.json, hand a key out, save, SHOW the address.
+                # A crash at any boundary of its save; whatever was shown before must not be shown to the next caller.
+                if not fs.isfile('wallet.json'):
+                    continue
+                import io
+                import sys
+                import contextlib
+                import skepticoin.scripts.receive as receive_mod
+                save_wallet(wallet)                      # the file is this wallet
+                snap0 = fs.snapshot()
+                file_t = _parse(snap0['wallet.json'])
+                unused_in_file = len(file_t[1])
+
+                def run_script(crash_at):
+                    out = io.StringIO()
+                    argv = sys.argv
+                    sys.argv = ['skepticoin-receive', op.get('note', 'x')]
+                    fs.crash_at = crash_at
+                    fs.reset_boundaries()
+                    crashed = False
+                    try:
+                        with contextlib.redirect_stdout(out):
+                            receive_mod.main()
+                    except Crash:
+                        crashed = True
+                    finally:
+                        sys.argv = argv
+                        fs.crash_at = None
+                    shown = [ln.strip() for ln in out.getvalue().splitlines() if ln.strip().startswith('SKE') and ln.strip().endswith('PTI')]
+                    return shown, crashed, fs.boundary
+
+                shown_ok, crashed, nb = run_script(None)
+                if crashed or len(shown_ok) != 1:
+                    res.violate(PROP, 'C15/receive-script-shows-no-address', 'a completed run showed %d addresses' % len(shown_ok))
+                    break
+                final_snap = fs.snapshot()
+                for pt in list(range(nb)) + [None]:
+                    fs.restore(snap0)
+                    shown1, crashed, _ = run_script(pt)
+                    if pt is not None:
+                        res.bump('fault:crash_in_receive_script')
+                    # the next caller
+                    shown2, crashed2, _ = run_script(None)
+                    if crashed2 or len(shown2) != 1:
+                        res.violate(PROP, 'C15/reload-fails-after-crash', 'the receive script does not complete after a crash at boundary %r' % (pt,))
+                        break
+                    if unused_in_file >= 2 and shown1 and shown1[0] == shown2[0]:
+                        res.violate(PROP, 'C15/key-handed-out-twice',
+                                    'the receive script showed an address, %s, and the next run of the script showed the same address '
+                                    'although %d unused keys remain' % ('crashed at boundary %r of its save' % (pt,) if pt is not None else 'completed',
+                                                                         unused_in_file))
+                        break
+                    if shown1:
+                        res.bump('probe:address_shown_before_crash' if pt is not None and crashed else 'receive_script_runs')
+                if res.violations:
+                    break
+                fs.restore(final_snap)
+                wallet = open_or_init_wallet()
+                outstanding = {k for k in all_pubs if human(k) in _parse(final_snap['wallet.json'])[2]}
+                reused = {}
+                last_handout = None
+                res.distinct.add('receive_script:%d' % nb)
+                trace.add('receive_script', nb)
             elif kind == 'balance':
                 head = sim.chain.blocks[sim.cs.current_chain_hash]
                 want = sum(v for v, pub in head.utxo.values() if pub in wallet.keypairs)
